@@ -137,14 +137,14 @@ def main():
         "setup_cmd": "./vf setup",
         "hooks": {
             "guard": "verif",
-            "enable": "go build -tags verif (reserved: no file in /repo uses the tag; all instrumentation is generated at check time through go build -overlay, outside /repo)",
+            "enable": "go build -tags verif (reserved: no file in /repo uses the tag; no hooks were needed, every check drives exported API only)",
             "baseline_off_cmd": BASE_OFF,
             "source_commits": [],
             "add_only": True,
         },
         "engines": [
             {"name": "vfcheck", "path": "/verif/harness", "serves_properties": sorted(CHECKS),
-             "kind_free_text": "hand-written bounded-exhaustive explorers in Go driving the real kyber code: alphabet-product enumeration (E), explicit-state/sequence exploration with lock-step reference models (S), controlled-scheduler interleaving exploration (P)"},
+             "kind_free_text": "hand-written bounded-exhaustive explorers in Go driving the real kyber code: alphabet-product enumeration (E), explicit-state/sequence exploration with lock-step reference models (S), exhaustive enumeration of two-thread fork-join programs each decided under the race detector (R)"},
         ],
         "checks": checks,
         "not_applicable": na,
